@@ -19,7 +19,11 @@ let show_res f = function OK a -> f a | Err -> "err" | Crash -> "crash" | OutOfF
      dict NAME K:V,K:V,...        -> <rendered> <ok K:V,... | err>     (the rendering, and the model's own parse of it)
      acl NAME N/IP/MASK/COMMENT,...   N = 0|1, MASK = number | _
      backend NAME ADDR|_
-     director NAME TYPE RETRIES QUORUM B,B,... *)
+     director NAME TYPE RETRIES QUORUM B,B,...
+     rule TY DEST IGNORE(0|1) set SRC | rule TY DEST IGNORE delete     -> the text of Model/Rules.v render_rule
+     ctype CT                     -> set obj.http.Content-Type = "quote(CT)";
+     longstring S                 -> the long string literal | none
+     snips TYPE NAME/TYPE/PRIO/CONTENT,...   -> the names of scoped TYPE (for TYPE = none: the names found by include_of), comma separated *)
 let handle (req : string) : string =
   match split_on ' ' req with
   | ["quote"; s] -> tohex (vcl_quote (unhex s))
@@ -50,6 +54,27 @@ let handle (req : string) : string =
   | "director" :: name :: ty :: retries :: quorum :: rest ->
     let bs = (match rest with [] | ["."] -> [] | [l] -> List.map unhex (split_on ',' l) | _ -> failwith "director") in
     tohex (render_director (unhex name) (n_of_int (int_of_string ty)) (n_of_int (int_of_string retries)) (n_of_int (int_of_string quorum)) bs)
+  | ["rule"; ty; dest; ign; "set"; src] ->
+    tohex (render_rule (n_of_int (int_of_string ty)) (unhex dest) (ign = "1") (RSet (unhex src)))
+  | ["rule"; ty; dest; ign; "delete"] ->
+    tohex (render_rule (n_of_int (int_of_string ty)) (unhex dest) (ign = "1") RDelete)
+  | ["ctype"; ct] -> tohex (render_content_type (unhex ct))
+  | ["longstring"; s] -> (match longstring (unhex s) with Some t -> tohex t | None -> "none")
+  | "snips" :: ty :: rest ->
+    let z_of_int i = if i = 0 then Z0 else if i > 0 then Zpos (pos_of_int i) else Zneg (pos_of_int (- i)) in
+    let l = (match rest with
+      | [] | ["."] -> []
+      | [l] -> List.map (fun e -> match String.split_on_char '/' e with
+          | [n; t; p; c] -> { s_name = unhex n; s_type = unhex t; s_prio = z_of_int (int_of_string p); s_content = unhex c }
+          | _ -> failwith "snip") (split_on ',' l)
+      | _ -> failwith "snips") in
+    let tyb = unhex ty in
+    let names =
+      if tyb = t_none then
+        List.filter_map (fun s -> if s.s_type = t_none then
+            (match include_of s.s_name l with Some x -> Some (tohex x.s_name ^ ":" ^ tohex x.s_content) | None -> Some "missing") else None) l
+      else List.map (fun s -> tohex s.s_name ^ ":" ^ tohex s.s_content) (scoped tyb l) in
+    (match names with [] -> "." | _ -> String.concat "," names)
   | _ -> "badreq"
 
 let () = serve handle
